@@ -145,6 +145,91 @@ class SymText(str):
 _orig = {}
 _space = None
 
+# ---- "alive" test: could text beyond `actual` still change what the regex does? ----------------------------------
+# A regex outcome computed on the decided part of the text is final unless some path of the regex consumes ALL of
+# that part and could go on.  alive(P) is the prefix closure of P (look-arounds and anchors dropped, repeat counts
+# relaxed: both only enlarge it), built from CPython's own parse tree of the pattern.
+try:
+    import re._parser as _sre_parse
+except ImportError:  # pragma: no cover
+    import sre_parse as _sre_parse
+import re as _re
+
+_alive_cache = {}
+
+
+def _cls_item(op, av):
+    op = str(op)
+    if op == "LITERAL":
+        return _re.escape(chr(av))
+    if op == "RANGE":
+        return _re.escape(chr(av[0])) + "-" + _re.escape(chr(av[1]))
+    if op == "CATEGORY":
+        return {"CATEGORY_DIGIT": r"\d", "CATEGORY_NOT_DIGIT": r"\D", "CATEGORY_SPACE": r"\s",
+                "CATEGORY_NOT_SPACE": r"\S", "CATEGORY_WORD": r"\w", "CATEGORY_NOT_WORD": r"\W"}[str(av)]
+    raise ValueError("gapsym.alive: class item " + op)
+
+
+def _full_item(op, av):
+    o = str(op)
+    if o == "LITERAL":
+        return _re.escape(chr(av))
+    if o == "NOT_LITERAL":
+        return "[^" + _re.escape(chr(av)) + "]"
+    if o == "ANY":
+        return "."
+    if o == "IN":
+        neg = any(str(a) == "NEGATE" for a, _ in av)
+        return "[" + ("^" if neg else "") + "".join(_cls_item(a, b) for a, b in av if str(a) != "NEGATE") + "]"
+    if o in ("MAX_REPEAT", "MIN_REPEAT"):
+        lo, hi, sub = av
+        return "(?:" + _full_seq(sub) + ")*"
+    if o == "SUBPATTERN":
+        return "(?:" + _full_seq(av[3]) + ")"
+    if o == "BRANCH":
+        return "(?:" + "|".join(_full_seq(b) for b in av[1]) + ")"
+    if o in ("ASSERT", "ASSERT_NOT", "AT"):
+        return ""
+    raise ValueError("gapsym.alive: construct " + o)
+
+
+def _full_seq(items):
+    return "".join(_full_item(op, av) for op, av in items)
+
+
+def _pref_item(op, av):
+    o = str(op)
+    if o in ("LITERAL", "NOT_LITERAL", "ANY", "IN"):
+        return _full_item(op, av)
+    if o in ("MAX_REPEAT", "MIN_REPEAT"):
+        lo, hi, sub = av
+        return "(?:" + _full_seq(sub) + ")*" + _pref_seq(sub)
+    if o == "SUBPATTERN":
+        return _pref_seq(av[3])
+    if o == "BRANCH":
+        return "(?:" + "|".join(_pref_seq(b) for b in av[1]) + ")"
+    if o in ("ASSERT", "ASSERT_NOT", "AT"):
+        return ""
+    raise ValueError("gapsym.alive: construct " + o)
+
+
+def _pref_seq(items):
+    items = list(items)
+    alts = [""]
+    for i in range(len(items)):
+        alts.append(_full_seq(items[:i]) + _pref_item(*items[i]))
+    return "(?:" + "|".join(alts) + ")"
+
+
+def alive_re(compiled):
+    key = (compiled.pattern, compiled.flags)
+    r = _alive_cache.get(key)
+    if r is None:
+        tree = _sre_parse.parse(compiled.pattern, compiled.flags)
+        r = _re.compile(_pref_seq(tree), compiled.flags & (_re.I | _re.S | _re.M))
+        _alive_cache[key] = r
+    return r
+
 
 def _outcome(text, pos, matcher, hyp):
     actual, vmap, stop = text.expand(pos, hyp)
@@ -164,11 +249,8 @@ def _decide(text, pos, matcher, viable=None):
         return base
     # the decided text alone settles the match: it ended before the undecided choice point, or (literals) the decided
     # text is already not a prefix of what is wanted
-    if base[0] and base[5] < base[4]:
-        return base
-    if not base[0] and viable is not None:
-        actual = text.expand(pos, None)[0]
-        if not viable(actual):
+    if viable is not None:
+        if not viable(text.expand(pos, None)[0]):
             return base
     frontier = [dict()]
     results = set()
@@ -179,8 +261,8 @@ def _decide(text, pos, matcher, viable=None):
         o = _outcome(text, pos, matcher, hyp)
         seen += 1
         nstop = o[3]
-        consumed_all = (o[0] and o[5] == o[4]) or (not o[0])
-        if nstop is not None and consumed_all and seen < 400:
+        open_end = nstop is not None and (viable is None or viable(text.expand(pos, hyp)[0]))
+        if open_end and seen < 400:
             alts = text.cps[nstop][2]
             for k in range(len(alts)):
                 h = dict(hyp)
@@ -208,7 +290,8 @@ def install(grammar):
             m = self.re.match(actual)
             return None if m is None else m.end()
 
-        o = _decide(text, pos, matcher)
+        alive = alive_re(self.re)
+        o = _decide(text, pos, matcher, viable=lambda actual: alive.fullmatch(actual) is not None)
         if not o[0]:
             return None
         node = RegexNode(self, text, pos, o[1])
